@@ -212,6 +212,12 @@ func c08Run(c *mc.Ctx) {
 		r := ref.SkipResult{OK: true, N: len(enc), MaxDepth: tr.V.Depth()}
 		for _, sk := range allSkippers {
 			skipCompare(c, "C08", in, tr.V.T, sk, full, "well-formed "+tr.Name, &r)
+			if isStreamSkipper(sk) {
+				// the value arrives in segments: from a source that also reports how much it can deliver right now (Len), and
+				// from one that answers every other Read with (0, nil) while still making progress
+				skipCompare(c, "C08", in, tr.V.T, sk, EnvCfg{Chunk: 1000, Len: true}, "well-formed "+tr.Name, &r)
+				skipCompare(c, "C08", in, tr.V.T, sk, EnvCfg{Chunk: 60, ZeroReads: 1, ErrWithLast: true}, "well-formed "+tr.Name, &r)
+			}
 		}
 	}
 	// (c3) well-formed values read one after another from one decoder / reader without Release (consumed prefix)
